@@ -168,7 +168,7 @@ def _json_str(s):
             out.append('\\f')
         elif o < 0x20:
             out.append('\\u%04x' % o)
-        elif o < 0x7f or o == 0x7f:
+        elif o < 0x7f:
             out.append(ch)
         elif o < 0x10000:
             out.append('\\u%04x' % o)
@@ -538,3 +538,50 @@ def from_jsonable(x):
             return set(from_jsonable(i) for i in x['__set__'])
         return {k: from_jsonable(v) for k, v in x.items()}
     return x
+
+
+# ------------------------------------------------------------ model state
+
+def track(calls, main_encoding='utf-8'):
+    """Declarative model state after a legal call history:
+    (prev section id, declared-encoding scope (main, change, file), depth).
+    Raises Reject for an illegal order."""
+    prev = 'diffx'
+    scope = [main_encoding, None, None]
+    depth = 0
+    for c in calls:
+        kind = c[0]
+        if kind in ('change', 'file'):
+            lvl = LEVEL_OF[kind]
+            sid = '.' * lvl + kind
+            if sid not in NEXT[prev]:
+                raise Reject(sid)
+            for i in range(lvl, 3):
+                scope[i] = None
+            scope[lvl] = c[1]
+            depth = lvl
+        else:
+            sid = '.' * (depth + 1) + kind
+            if sid not in NEXT[prev]:
+                raise Reject(sid)
+        prev = sid
+    return prev, tuple(scope), depth
+
+
+def inherited_encoding(scope, depth):
+    for i in range(depth, -1, -1):
+        if scope[i]:
+            return scope[i]
+    return None
+
+
+def legal_kinds(prev, depth):
+    """Which writer calls the hierarchy allows after `prev`."""
+    out = []
+    for kind in ('change', 'file'):
+        if '.' * LEVEL_OF[kind] + kind in NEXT[prev]:
+            out.append(kind)
+    for kind in ('preamble', 'meta', 'diff'):
+        if '.' * (depth + 1) + kind in NEXT[prev]:
+            out.append(kind)
+    return out
